@@ -41,6 +41,9 @@ HOSTS = [
     ("1.2.3.", "name", "1.2.3."), ("1..2.3", "name", "1..2.3"), ("256.1.1.1", "name", "256.1.1.1"),
     ("[::1]", "ip", None), ("[2001:db8::1]", "ip", None), ("[::ffff:1.2.3.4]", "ip", None), ("[fe80::1%25lo]", "dontcare", None),
     ("[fe80::1%lo]", "dontcare", None), ("[v1.fe]", "dontcare", None), ("[::1", "bad", None), ("", "bad", None),
+    # every upper-case letter, literal and escaped, also behind a percent-escape (where a URI parser's own case folding may stop)
+    ("m%C3%BCnchen.ABCDEFGHIJKLMNOPQRSTUVWXYZ.example", "name", "münchen.abcdefghijklmnopqrstuvwxyz.example"),
+    ("%41b.%5Aone.QUIZ", "name", "ab.zone.quiz"),
 ]
 PORTS = [(None, "ok"), ("", "ok"), ("5683", "ok"), ("5684", "ok"), ("61616", "ok"), ("0", "ok"), ("65535", "ok"), ("65536", "bad"), ("abc", "bad")]
 SEGS = ["a", "", ".", "..", "a/b", "a?b", "a&b", "a=b", "a%b", "a#b", "a b", "ö", "%41", ":@", "+", "~", "A",
